@@ -21,10 +21,6 @@ from lsfsim.runner import run_scenario
 from monitors.basic import Monitor
 
 PROP = "C07"
-E.FAMILIES["retry_fanout1"] = dict(profile="retry", over={"fail_levels": 1, "fanout_handlers": True,
-                                                            "retry_in_retried_fanout": False,
-                                                            "types": dict(Pass=2, Task=6, Choice=1, Wait=1, Succeed=1,
-                                                                          Fail=1, Parallel=3, Map=3)})
 FAMILY_MIX = ["retry"] * 3 + ["retry_fanout1"] * 2 + ["sequential"] + ["retry_map_batches", "retry_fanout_siblings"]
 POLICIES = ["canonical", "canonical", "latency-small", "latency-heavy"]
 
@@ -231,8 +227,11 @@ def check(scn, seed, mo=None, fam="replay"):
         else:
             t0 = timing.start_time(res, "e1")
             # with a failing fan-out which sibling requests were still issued depends on the schedule
+            # (under the zero-latency schedule the model knows which sibling requests still went out: those before the
+            # failure; requests that coincide with the failure are left open)
+            decided = exact and not mo.flags.tie and not mo.flags.cancel_tie
             for rule, detail in timing.compare_instants(mo, res, arn, t0, exact,
-                                                        requests=not mo.flags.fanout_failures):
+                                                        requests=not mo.flags.fanout_failures or decided):
                 findings.append({"property": PROP, "rule": rule, "witness": None, "detail": detail})
     if res.sim.errors:
         findings.append({"property": PROP, "rule": "engine-exception", "witness": None,
